@@ -38,7 +38,8 @@ PokeClause(s, e) ==
   LET exp == Step(s, e)  obs == e.obs  n == Len(s.lists) IN
   IF obs.err # "" THEN "SM:raised:poke"
   ELSE IF Len(obs.lists) # n \/ \E i \in 1..n : obs.lists[i].its # s.lists[i].its THEN "SM:an-existing-list-changed-its-items:poke"
-  ELSE IF Len(obs.items) # Len(s.items) \/ obs.items[PokedId(s, e)] # exp.items[PokedId(s, e)] THEN "SM:assignment-into-an-item-not-stored"
+  ELSE IF Len(obs.items) # Len(s.items) \/ ~Has(obs.items[PokedId(s, e)], "b") \/ obs.items[PokedId(s, e)]["b"] # e.a.v
+       THEN "SM:assignment-into-an-item-not-stored"      \* (other keys of the same dict may hold the same container: judged below)
   ELSE IF \E j \in DOMAIN s.items : s.hp[j] # s.hp[PokedId(s, e)] /\ obs.items[j] # s.items[j]
        THEN "SM:assignment-into-one-item-observable-through-an-item-of-another-heap(deepcopy-not-isolated)"
   ELSE IF \E j \in DOMAIN s.items : \/ DOMAIN obs.items[j] # DOMAIN exp.items[j]      \* same heap: a shared container may show the new value
